@@ -12,7 +12,7 @@ TECHNIQUE = ("CBMC bounded symbolic execution of buffer.c (real code, MIN_BUFFER
 UNITS = ["buffer.c", "evbuffer-internal.h", "include/event2/buffer.h"]
 FUNCTIONS = ["evbuffer_read", "evbuffer_read_setup_vecs_", "get_n_bytes_readable_on_socket", "evbuffer_expand_fast_", "evbuffer_write_atmost", "evbuffer_write",
              "evbuffer_write_iovec", "evbuffer_write_sendfile", "evbuffer_drain", "evbuffer_add_file_segment", "evbuffer_file_segment_new", "evbuffer_set_max_read"]
-BOUNDS = ("9 buffer shapes (empty; partially filled / full / misaligned chain; two chains; reference chain first or last; sendfile chain first or last), "
+BOUNDS = ("10 buffer shapes (empty; partially filled / full / misaligned chain; two chains; reference chain first or last; sendfile chain first (whole and partly sent, file longer than the range, data following) or last), "
           "16-byte chains, <= 20 stored bytes; read: howmuch in {-1,0,1,5,12,17,30} x FIONREAD in {fails,0,3,20,5000}, max_read 24, <= 4 iovecs; "
           "write: howmuch in {-1 (evbuffer_write),0,1,3,4,7,100}; every system-call outcome (EINTR/EAGAIN/ECONNRESET/EPIPE, 0, any short count)")
 OUT = ("sequences of several I/O calls on one buffer (each call is checked from concrete pre-states that include the shapes a short write leaves behind); "
@@ -32,7 +32,7 @@ DESIGN_REF = "DESIGN.md §5 C16, §3.3, §3.4"
 VP_OBJ = 160
 H = "C16_socket_io.c"
 SHAPES = {1: "empty", 2: "add(5)", 3: "add(16) full chain", 4: "add(3)+reference(4)", 5: "add(20) two chains", 6: "add(5)+drain(2) misaligned",
-          7: "reference(4)+add(3)", 8: "sendfile chain(6)+add(3)", 9: "add(3)+sendfile chain(6)"}
+          7: "reference(4)+add(3)", 8: "sendfile chain(6)+add(3)", 9: "add(3)+sendfile chain(6)", 10: "sendfile chain(6)+add(3)+drain(2): partly sent sendfile chain"}
 LOOPS = {"vp_bytes.0": 26, "vpb_init.0": 130, "vpb_append.0": 130, "vp_evb_byte.0": 8, "vp_evb_check.0": 8, "compare.0": 5, "add_ref.0": 5,
          "harness_read.0": 28, "harness_read.1": 28, "harness_read.2": 28, "harness_write.0": 24, "harness_write.1": 24, "vp_io_readv.0": 50, "vp_io_readv.1": 50, "vp_io_readv.2": 50,
          "vp_io_writev.0": 50, "vp_io_writev.1": 50, "vp_io_writev.2": 50, "vp_io_pread.0": 18, "vp_io_mmap.0": 26}
@@ -60,23 +60,23 @@ def obligations(tier):
     obs = []
     if tier == "quick":
         rplan = [(s, f) for s in (1, 2, 4, 5, 8) for f in (0, 2, 4)]
-        wplan = [(s, h) for s in (1, 2, 3, 4, 5, 6, 7, 9) for h in (0, 4)] + [(8, 5)]
+        wplan = [(s, h) for s in (1, 2, 3, 4, 5, 6, 7, 9) for h in (0, 4)] + [(8, 5), (10, 0)]
         twins = []
     else:
-        rplan = [(s, f) for s in SHAPES for f in range(5)]
-        wplan = [(s, h) for s in SHAPES for h in range(7) if not (s == 8 and h in (2, 3, 4))]
+        rplan = [(s, f) for s in SHAPES if s != 10 for f in range(5)]
+        wplan = [(s, h) for s in SHAPES for h in range(7) if not (s == 8 and h in (2, 3, 4)) and not (s == 10 and h in (2, 3))]
         twins = [("r", 2, 2), ("r", 4, 4), ("w", 5, 0), ("w", 7, 4), ("w", 8, 5)]
     for s, f in rplan:
         obs.append(ob("read_shape%d_fion%s" % (s, FR[f]), "harness_read", ["VP_READ", "SHAPE=%d" % s, "VP_FRI=%d" % f],
                       "evbuffer_read from [%s], FIONREAD %s, howmuch in %s" % (SHAPES[s], FR[f], HM_R)))
     for s, h in wplan:
-        obs.append(ob("write_shape%d_hm%d" % (s, HM_W[h]), "harness_write", ["VP_WRITE", "SHAPE=%d" % s, "VP_HMI=%d" % h] + (["KF_EXCLUDE_SENDFILE_HOWMUCH"] if s == 8 else []) + (["VP_NO_PROGRESS"] if HM_W[h] == 0 else []),
+        obs.append(ob("write_shape%d_hm%d" % (s, HM_W[h]), "harness_write", ["VP_WRITE", "SHAPE=%d" % s, "VP_HMI=%d" % h] + (["KF_EXCLUDE_SENDFILE_HOWMUCH"] if s in (8, 10) else []) + (["VP_NO_PROGRESS"] if HM_W[h] == 0 else []),
                       "evbuffer_write%s from [%s], every accepted count" % ("" if HM_W[h] == -1 else "_atmost(howmuch=%d)" % HM_W[h], SHAPES[s])))
     for k, s, x in twins:
         if k == "r":
             obs.append(ob("read_shape%d_fion%s" % (s, FR[x]), "harness_read", ["VP_READ", "SHAPE=%d" % s, "VP_FRI=%d" % x], "evbuffer_read from [%s], FIONREAD %s" % (SHAPES[s], FR[x]), ndebug=True))
         else:
-            obs.append(ob("write_shape%d_hm%d" % (s, HM_W[x]), "harness_write", ["VP_WRITE", "SHAPE=%d" % s, "VP_HMI=%d" % x] + (["KF_EXCLUDE_SENDFILE_HOWMUCH"] if s == 8 else []),
+            obs.append(ob("write_shape%d_hm%d" % (s, HM_W[x]), "harness_write", ["VP_WRITE", "SHAPE=%d" % s, "VP_HMI=%d" % x] + (["KF_EXCLUDE_SENDFILE_HOWMUCH"] if s in (8, 10) else []),
                           "evbuffer_write_atmost(howmuch=%d) from [%s]" % (HM_W[x], SHAPES[s]), ndebug=True))
     # finding KF-C16-sendfile-howmuch: fails on the unpatched tree (expect_fail), passes with fixes/C16-sendfile-howmuch.diff
     obs.append(ob("write_shape8_kf", "harness_write", ["VP_WRITE", "SHAPE=8", "VP_HMI=3", "KF_ONLY_SENDFILE_HOWMUCH"],
